@@ -26,6 +26,8 @@ def _key(v):
 def describe(model, rng=None, absent=()):
     """What to ask, derived from the model (sorted, deterministic)."""
     wes = [(w, model.we_prefixes(w)) for w in model.weids()]
+    if len(wes) > 24:
+        wes = wes[:6] + wes[-10:]  # hundreds of webentities: the per-webentity questions go to both ends of the id range
     return {
         "pages": sorted(model.pages),
         "nodes": sorted(model.nodes),
